@@ -235,6 +235,8 @@ def predicates(q, tau0, tqs):
         bad.append(('t', 'c02-t', 't is not 0 :: cumsum(dt)'))
         return bad
     tau1 = q.tau
+    if tau0 != tau1 or tau1 != t[-1]:
+        bad.append(('tau', 'c02-tau-not-t-last', 'tau (first read %r, after t %r) is not t[-1] = %r' % (tau0, tau1, t[-1])))
     for nm, val in (('tau (before t was read)', tau0), ('tau (after t was read)', tau1), ('duration', q.duration)):
         if abs(val - float(np.sum(q.dt))) > TOL_T * tscale:
             bad.append(('tau', 'c02-tau', '%s = %r differs from sum(dt) = %r' % (nm, val, float(np.sum(q.dt)))))
@@ -246,7 +248,7 @@ def predicates(q, tau0, tqs):
             if np.abs(U[0] - Q[-1]).max() > 1e-9 * angle:
                 bad.append(('arb_t(tau)', 'c02-arb-tau-value', 'U(tau) != total propagator'))
         except IndexError as e:
-            if val > t[-1]:        # the two branches of the tau property disagree in floating point
+            if val > t[-1]:        # tau exceeds the last time (former finding, repaired in /repo f6ab3ac)
                 bad.append(('arb_t(tau)', 'c02-tau-exceeds-t-last',
                             'propagator_at_arb_t([pulse.tau]) raises IndexError (%s): tau (%s) = %r > t[-1] = %r'
                             % (e, nm, val, t[-1])))
@@ -296,8 +298,7 @@ def coq_case(name, q, info, obs, big):
         f"tallyR O {tol_lit(O, TOL_T * tscale)} {rvec_lit(obs['t'])}%Z (t_get O None newdt)",
         f"tallyR O {tol_lit(O, TOL_T * tscale)} {rvec_lit([obs['tau1']])}%Z [tau_get O (Some ts) newdt]",
     ]
-    if obs['tau0_branch_none']:
-        parts.append(f"tallyR O {tol_lit(O, TOL_T * tscale)} {rvec_lit([obs['tau0']])}%Z [tau_get O None newdt]")
+    parts.append(f"tallyR O {tol_lit(O, TOL_T * tscale)} {rvec_lit([obs['tau0']])}%Z [tau_get O None newdt]")
     if 'assigned' in info:
         parts.append(f"tallyR O {tol_lit(O, TOL_T * tscale)} {rvec_lit([obs['tau0']])}%Z [{info['assigned']}]")
     if 'copied' in info:
@@ -411,11 +412,9 @@ def search(ctx, broken):
     for i in range(400):
         kind = KINDS[i % len(KINDS)]
         q, info, obs, bad = one_case(r, kind, True, idx=i)
-        bad = [b for b in bad if b[1] != 'c02-tau-exceeds-t-last'] or bad
         if bad:
             o, sig, det = bad[0]
             out.append(dict(kind='prop', observable=o, signature=sig, detail=det,
                             input=dict(kind=kind, spec=info['spec'], tags=info['tags']), broken_obligations=broken))
-            if sig != 'c02-tau-exceeds-t-last':
-                break
+            break
     return out[-1:] if out else []
